@@ -117,6 +117,7 @@ abbrev Heap := Nat → Val
 /-- how the C++ parameter is declared -/
 inductive Mode where
   | value | pointer | reference
+  | convString     -- by value, initialised through `std::string`'s converting constructor from `const char *`
   deriving DecidableEq, Repr
 
 inductive Var where
@@ -230,6 +231,11 @@ def evalCall (h : Heap) (e : Env) : Mode → CallExpr → Option Recv
   | .value, .deref v => (match e.get v with | .ptr a => some (.val (load h e a)) | _ => none)
   | .reference, .deref v => (match e.get v with | .ptr a => some (.ref a) | _ => none)
   | .pointer, .deref _ => none
+  | .convString, .plain v =>
+    (match e.get v with
+     | .ptr (.heap a) => (match h a with | .str s => some (.val (.str s)) | _ => none)
+     | _ => none)
+  | .convString, .deref _ => none
 
 def resolve (e : Env) : Option Recv → Seen
   | none => .bad
